@@ -1,5 +1,5 @@
 //! C06 — all views of a sparse matrix agree; compressed-column form stays well-formed.
-use crate::model::DM;
+use crate::model::{vec_to_ohsl, DM};
 use crate::mon::common::*;
 use crate::rat::Rat;
 use crate::rng::{permutations, Rng};
@@ -87,6 +87,59 @@ pub fn check_views(st: &mut Stats, s: &Sparse<Rat>, m: &SM, step: &str, hist: &d
     ok
 }
 
+/// Sparse<f64> with hostile stored values (inf, NaN, -0.0, subnormals): `scale` multiplies EVERY stored value - by 0, 1, -1
+/// as well (inf * 0 is NaN, -3 * 0 is -0.0); entries, nonzero count and pattern stay what they were
+fn hostile_values_f64(st: &mut Stats, rng: &mut Rng) {
+    st.next_case();
+    let (rows, cols) = (rng.usize(1, 6), rng.usize(1, 6));
+    let mut t: Vec<(usize, usize, f64)> = vec![];
+    for i in 0..rows { for j in 0..cols { if rng.chance(0.4) { t.push((i, j, *rng.pick(&[1.5, -3.0, f64::INFINITY, f64::NEG_INFINITY, f64::NAN, -0.0, 0.0, 5e-324, 1e308, -2.0]))); } } }
+    let model = t.clone();
+    rng.shuffle(&mut t);
+    let mut s = match catch(|| Sparse::<f64>::from_triplets(rows, cols, &mut t)) { Outcome::Ok(s) => s, _ => return };
+    let same = |x: f64, y: f64| (x.is_nan() && y.is_nan()) || x.to_bits() == y.to_bits();
+    let mut cur = model.clone();
+    for _ in 0..rng.usize(1, 3) {
+        let f = *rng.pick(&[0.0, 1.0, -1.0, -0.0, 2.0, 0.5, f64::INFINITY]);
+        for e in cur.iter_mut() { e.2 *= f; }
+        if !catch(|| s.scale(&f)).is_ok() { st.violation("C06:scale:panic", format!("scale({:?}) on {}x{} {:?}", f, rows, cols, model)); return; }
+        st.eval();
+        for &(i, j, v) in &cur {
+            match catch(|| s.get(i, j)) {
+                Outcome::Ok(Some(g)) if same(g, v) => {}
+                o => { st.violation("C06:scale:f64:hostile-values", format!("after scale({:?}): get({},{}) = {:?}, expected Some({:?}) (every stored value is multiplied, 0 * inf = NaN, -3 * 0 = -0.0); start {}x{} {:?}", f, i, j, match o { Outcome::Ok(x) => format!("{:?}", x), oo => oo.describe() }, v, rows, cols, model)); return; }
+            }
+        }
+        if s.nonzero != cur.len() || wellformed(&s).is_err() { st.violation("C06:scale:f64:hostile-values", format!("after scale({:?}) the structure changed: nonzero {} expected {}; {:?}", f, s.nonzero, cur.len(), wellformed(&s))); return; }
+    }
+    st.count("hostile-value-cases");
+}
+
+/// Wrap-around probes: K-1 cheap single-column constructions between two judged constructions that touch the same rows, for K
+/// around 2^8 and 2^16. Per-thread epoch / stamp counters of those widths wrap exactly there; with marks left from the previous
+/// epoch a genuine entry would look "already seen".
+pub fn epoch_probe(st: &mut Stats, rng: &mut Rng, gap: usize) {
+    st.next_case();
+    let rows = rng.usize(3, 10);
+    let full = |rng: &mut Rng, cols: usize| -> SM { gen_sm(rng, rows, cols, 1.0, false) };
+    let first = full(rng, 1);
+    let mut t = first.triplets();
+    let a = catch(|| Sparse::<Rat>::from_triplets(rows, 1, &mut t));
+    if let Outcome::Ok(a) = &a { let _ = catch(|| a.transpose()); }
+    for _ in 0..gap { let mut one = vec![(0usize, 0usize, Rat::ONE)]; let _ = catch(|| { let m = Sparse::<Rat>::from_triplets(1, 1, &mut one); m.transpose() }); }
+    for cols in [1usize, 2, 3] {
+        let m = full(rng, cols);
+        let mut t = m.triplets(); rng.shuffle(&mut t);
+        let shown = format!("full {}x1 matrix, then {} single-entry 1x1 constructions (+transposes), then from_triplets({}x{}, {:?})", rows, gap, rows, cols, t);
+        match catch(|| Sparse::<Rat>::from_triplets(rows, cols, &mut t)) {
+            Outcome::Ok(s) => { st.eval(); if !check_views(st, &s, &m, "construction after an epoch of small constructions", &|| shown.clone()) { return; }
+                                if let Outcome::Ok(tr) = catch(|| s.transpose()) { if !check_views(st, &tr, &m.transpose(), "transpose after an epoch of small constructions", &|| shown.clone()) { return; } } }
+            o => { st.violation("C06:construct:panic", format!("{}: {}", shown, o.describe())); return; }
+        }
+    }
+    st.count("epoch-probes");
+}
+
 /// A construction / insertion that the library rejects (out-of-range row or column after some valid triplets), caught and
 /// ignored: whatever it leaves behind (scratch buffers, counters) must not reach the next, valid call on this thread.
 pub fn rejected_calls(st: &mut Stats, rng: &mut Rng) {
@@ -98,6 +151,17 @@ pub fn rejected_calls(st: &mut Stats, rng: &mut Rng) {
     let pos = rng.usize(0, t.len()); t.insert(pos, (bad.0, bad.1, Rat::ONE));
     let out = catch(|| Sparse::<Rat>::from_triplets(rows, cols, &mut t));
     st.count(if out.is_ok() { "rejected-calls:accepted(!)" } else { "rejected-calls:from_triplets" });
+    // operations on an INCONSISTENT matrix handed over through the unchecked from_vecs (row index out of range / value array too
+    // short): whatever they do (they panic on the pinned tree), the next valid call must not feel it
+    if rng.chance(0.3) {
+        let bad_m = catch(|| if rng.bool() { Sparse::<Rat>::from_vecs(2, 2, vec![Rat::ONE, Rat::ONE], vec![0, 5], vec![0, 1, 2]) } else { Sparse::<Rat>::from_vecs(3, 2, vec![Rat::ONE], vec![0, 2, 1], vec![0, 2, 3]) });
+        if let Outcome::Ok(bm) = bad_m {
+            let _ = catch(|| bm.transpose());
+            let _ = catch(|| bm.multiply(&vec_to_ohsl(&[Rat::ONE, Rat::ONE])));
+            let _ = catch(|| bm.transpose_multiply(&vec_to_ohsl(&[Rat::ONE, Rat::ONE, Rat::ONE])));
+            st.count("rejected-calls:operations-on-inconsistent-from_vecs");
+        }
+    }
     // the very next valid construction on this thread is judged in full, so is the matrix after a rejected insert
     let m2 = gen_sm(rng, rows, cols, 0.5, false);
     let mut t2 = m2.triplets(); rng.shuffle(&mut t2);
@@ -106,6 +170,7 @@ pub fn rejected_calls(st: &mut Stats, rng: &mut Rng) {
         Outcome::Ok(mut s) => {
             st.eval();
             if !check_views(st, &s, &m2, "construction after a rejected construction", &|| shown.clone()) { return; }
+            match catch(|| s.transpose()) { Outcome::Ok(tr) => { st.eval(); if !check_views(st, &tr, &m2.transpose(), "transpose after rejected calls", &|| shown.clone()) { return; } }, o => { st.violation("C06:transpose:panic", format!("{}: transpose of the valid matrix {}", shown, o.describe())); return; } }
             let _ = catch(|| s.insert(bad.0, bad.1, Rat::ONE));
             st.count("rejected-calls:insert");
             st.eval();
@@ -218,7 +283,8 @@ pub fn run(ctx: &Ctx) -> Report {
     let nperm = ctx.vol(6000, 400_000);
     let reps = ctx.vol(1000, 55_000);
     let stats = par_run(ctx, TAG, nshape + nexh + nperm, |u, rng, st| {
-        if u < nshape { for _ in 0..reps { history(st, rng, (u / 11) as usize, (u % 11) as usize); } }
+        if u == 0 { for gap in [253usize, 254, 255, 256, 257, 65532, 65533, 65534, 65535, 65536, 65537] { epoch_probe(st, rng, gap); } }
+        if u < nshape { for _ in 0..reps { history(st, rng, (u / 11) as usize, (u % 11) as usize); } for _ in 0..reps / 10 { hostile_values_f64(st, rng); } }
         else if u < nshape + nexh { let v = (u - nshape) as usize; exhaustive_patterns(st, rng, v / 3 + 1, v % 3 + 1); }
         else { for _ in 0..4 { order_independence(st, rng); } }
     });
